@@ -743,18 +743,19 @@ class Vector():
 			)
 
 			if self._dtype is not None and self._dtype.kind is not object:
-				incompatible = None
+				# Every incoming value is examined; together the incompatible
+				# ones decide the promotion (or the rejection)
+				incompatible = []
 				for val in new_values:
 					if val is None:
 						continue
 					try:
 						validate_scalar(val, self._dtype)
 					except TypeError:
-						incompatible = val
-						break
+						incompatible.append(val)
 
-				if incompatible is not None:
-					required_dtype = infer_dtype([incompatible])
+				if incompatible:
+					required_dtype = infer_dtype(incompatible)
 					try:
 						self._promote(required_dtype.kind)
 						underlying = self._underlying
